@@ -222,7 +222,9 @@ func (ri *RedisInput) syncMeta(ctx context.Context, redisCli *redis.StandaloneRe
 		// 2. output.offset < channel.left and channel.hasRdb :
 		// outSp not in locSp :
 		// 3. channel.right < output.offset :
-		if ri.channel.IsValidOffset(Offset{RunId: locSp.RunId, Offset: outSp.Offset}) {
+		// a position under the other of the source's two ids is not looked up in the cache : the two
+		// histories are the same up to a point only the source knows, so it is asked for the position
+		if outSp.RunId == locSp.RunId && ri.channel.IsValidOffset(Offset{RunId: locSp.RunId, Offset: outSp.Offset}) {
 			sOffset, isFullSync, rdbSize, err = ri.pSync(redisCli, locSp.ToOffset())
 			if err != nil {
 				return
